@@ -502,6 +502,28 @@ Section Proofs.
         unfold stf. rewrite run_cache_untouched by exact NW. apply E0.
   Qed.
 
+  (* ----- an operation whose save fails (I/O error) ----- *)
+  Lemma step_io_failed st o :
+    saves st o = true -> step_io b64enc b64dec true st o = (st, RErrIO).
+  Proof. intro S. unfold step_io. now rewrite S. Qed.
+
+  Lemma step_io_unaffected io st o :
+    io = false \/ saves st o = false -> step_io b64enc b64dec io st o = step st o.
+  Proof. intros [->|S]; unfold step_io; [reflexivity|]. rewrite S. now rewrite andb_false_r. Qed.
+
+  (* before the fix the failed Put stayed visible: Get answers the credential whose
+     Put reported an error (and the next successful save writes it) *)
+  Lemma step_io_prefix_visible :
+    exists st o a,
+      snd (step_io_prefix b64enc b64dec true st o) = RErrIO /\
+      get_candidates (cache_of (fst (step_io_prefix b64enc b64dec true st o))) a <>
+      get_candidates (cache_of st) a.
+  Proof.
+    exists {| st_mem := empty_mem; st_file := None |},
+           (Put [97] {| c_user := []; c_pass := []; c_refresh := [116]; c_access := [] |}), [97].
+    split; [reflexivity|]. vm_compute. discriminate.
+  Qed.
+
   (* ----- DisablePut: no secret is ever written ----- *)
   Notation fs_step := (fs_step b64enc b64dec).
   Notation fs_run := (fs_run b64enc b64dec).
